@@ -298,6 +298,8 @@ def work(task):
     from fjv.enginecheck import write_image, probe_words
     from fjv.ref import machine as R1
     tier, w, family, part, nparts = task
+    if tier == 'window':
+        return work_window(task)
     classes_ = classes()
     sieve = Sieve(PROP, MATCHERS)
     stats = {'programs': 0, 'fault_points': 0, 'runs': 0, 'fired': 0}
@@ -416,6 +418,147 @@ def known_native_kbd_lastops(record, sig):
 MATCHERS = {'native_interrupt_empty_last_ops': known_native_kbd_lastops}
 
 
+
+# ------------------------------------------------------------------ the interactive window's event pump (an interrupt route of its own)
+def install_pygame_stand_in():
+    """pygame is optional and not installed here: a stand-in module with just the names pygame_window.py uses; its event queue is
+    scripted by the harness (pg._queue) and display.toggle_fullscreen may be told to fail (pg._toggle_fails)."""
+    import sys
+    import types
+    pg = types.ModuleType('pygame')
+    pg.QUIT, pg.KEYDOWN, pg.KEYUP = 256, 768, 769
+    pg.SCALED, pg.RESIZABLE = 512, 16
+    pg.K_UP, pg.K_DOWN, pg.K_LEFT, pg.K_RIGHT = 1073741906, 1073741905, 1073741904, 1073741903
+    pg.K_LSHIFT, pg.K_RSHIFT, pg.K_LCTRL, pg.K_RCTRL, pg.K_LALT, pg.K_RALT = 1073742049, 1073742053, 1073742048, 1073742052, 1073742050, 1073742054
+    pg.K_F4, pg.K_F11 = 1073741885, 1073741892
+
+    class error(RuntimeError):
+        pass
+    pg.error = error
+    pg._queue, pg._toggles, pg._toggle_fails = [], [0], [False]
+
+    class Event:
+        def __init__(self, type_, **kw):
+            self.type = type_
+            self.__dict__.update(kw)
+    pg.event = types.SimpleNamespace(Event=Event, get=lambda: [pg._queue.pop(0) for _ in range(len(pg._queue))])
+
+    class Surface:
+        def __init__(self, size):
+            self.size = size
+
+        def get_size(self):
+            return self.size
+
+        def blit(self, *a):
+            pass
+
+    def toggle():
+        pg._toggles[0] += 1
+        if pg._toggle_fails[0]:
+            raise error('cannot toggle')
+    pg.display = types.SimpleNamespace(init=lambda: None, set_caption=lambda t: None, set_mode=lambda size, flags=0: Surface(tuple(size)),
+                                       flip=lambda: None, quit=lambda: None, toggle_fullscreen=toggle)
+    pg.image = types.SimpleNamespace(frombuffer=lambda b, size, fmt: Surface(tuple(size)))
+    sys.modules['pygame'] = pg
+    return pg
+
+
+WINDOW_EVENTS = ('down-b', 'up-b', 'down-F4', 'down-F11', 'up-F11', 'down-up-arrow', 'down-key0', 'down-key128', 'quit', 'other')
+
+
+def window_event(pg, name):
+    E = pg.event.Event
+    return {'down-b': lambda: E(pg.KEYDOWN, key=98), 'up-b': lambda: E(pg.KEYUP, key=98), 'down-F4': lambda: E(pg.KEYDOWN, key=pg.K_F4),
+            'down-F11': lambda: E(pg.KEYDOWN, key=pg.K_F11), 'up-F11': lambda: E(pg.KEYUP, key=pg.K_F11),
+            'down-up-arrow': lambda: E(pg.KEYDOWN, key=pg.K_UP), 'down-key0': lambda: E(pg.KEYDOWN, key=0),
+            'down-key128': lambda: E(pg.KEYDOWN, key=128), 'quit': lambda: E(pg.QUIT), 'other': lambda: E(1024, pos=(1, 2))}[name]()
+
+
+WINDOW_KEYS = {'down-b': (True, 98), 'up-b': (False, 98), 'down-up-arrow': (True, 0x80)}
+
+
+def work_window(task):
+    """every sequence of event batches through PygameWindow.pump_events / WindowKeyEventSource / InteractiveScreen presents: a batch that
+    holds a window-close event must end the pump with KeyboardInterrupt (that is how `the user closes the window` becomes a
+    keyboard-interrupt termination), whatever else the batch holds; a batch without one must not raise; documented key codes queue in order."""
+    _, tier, route, part, nparts = task
+    sieve = Sieve(PROP, MATCHERS)
+    stats = {'programs': 0, 'fault_points': 0, 'runs': 0, 'fired': 0}
+    hist = {}
+    pg = install_pygame_stand_in()
+    import importlib
+    import flipjump.interpreter.io_devices.pygame_window as PW
+    importlib.reload(PW)
+    n = len(WINDOW_EVENTS)
+    maxlen = 4 if tier == 'thorough' else 3
+    batches = [()] + [b for ln in range(1, maxlen + 1) for b in itertools.product(range(n), repeat=ln)]
+    short = [b for b in batches if len(b) <= 2]
+    if route == 'pump':
+        seqs = [(b,) for b in batches] + [(a, b) for a in short for b in short]
+    else:
+        seqs = [(b,) for b in batches if len(b) <= 3]
+    for si, seq in enumerate(seqs):
+        if si % nparts != part:
+            continue
+        for toggle_fails in ((False, True) if any(3 in b for b in seq) else (False,)):
+            pg._queue.clear()
+            pg._toggle_fails[0] = toggle_fails
+            win = PW.PygameWindow()
+            win.ensure_open(4, 2)
+            closed = False
+            keys = []
+            problems = []
+            stats['runs'] += 1
+            for bi, batch in enumerate(seq):
+                pg._queue.extend(window_event(pg, WINDOW_EVENTS[e]) for e in batch)
+                want_interrupt = (not closed) and any(WINDOW_EVENTS[e] == 'quit' for e in batch)
+                if not closed and not want_interrupt:
+                    keys += [WINDOW_KEYS[WINDOW_EVENTS[e]] for e in batch if WINDOW_EVENTS[e] in WINDOW_KEYS]
+                got = None
+                delivered = None
+                try:
+                    if route == 'pump':
+                        win.pump_events()
+                    elif route == 'key-source':
+                        delivered = PW.WindowKeyEventSource(win).next_due_event(0)
+                    else:
+                        scr = PW.InteractiveScreen(window=win)
+                        scr.width, scr.height, scr.last_frame_rgb = 4, 2, [(0, 0, 0)] * 8
+                        PW.InMemoryScreen._present = lambda self: None   # only the window side of a present is exercised here
+                        scr._present()
+                except KeyboardInterrupt:
+                    got = 'KeyboardInterrupt'
+                except BaseException as e:  # noqa
+                    got = type(e).__name__
+                if want_interrupt:
+                    stats['fired'] += 1
+                    closed = True
+                exp = 'KeyboardInterrupt' if want_interrupt else None
+                hist[str(exp)] = hist.get(str(exp), 0) + 1
+                if got != exp:
+                    problems.append((f'batch {bi}: outcome of the event pump', exp, got))
+                if bool(win.closed) != closed:
+                    problems.append((f'batch {bi}: window.closed', closed, bool(win.closed)))
+                if not want_interrupt and not closed:
+                    if delivered is not None:
+                        if not keys or tuple(delivered) != keys[0]:
+                            problems.append((f'batch {bi}: key event delivered', keys[0] if keys else None, delivered))
+                        keys = keys[1:]
+                    if [tuple(k) for k in win.key_events] != keys:
+                        problems.append((f'batch {bi}: queued key events', list(keys), [tuple(k) for k in win.key_events]))
+                if problems:
+                    break
+            if problems:
+                names = [[WINDOW_EVENTS[e] for e in b] for b in seq]
+                sieve.add({'kind': 'window event pump: closing the window is not a keyboard interrupt / events mishandled', 'class': f'window {route} {problems[0][0].split(": ")[1]}',
+                           'case': {'family': 'window', 'route': route, 'batches': names, 'toggle_fails': toggle_fails},
+                           'expected': {p_[0]: p_[1] for p_ in problems}, 'observed': {p_[0]: p_[2] for p_ in problems},
+                           'summary': f'window route={route} batches={names} toggle_fails={toggle_fails}: {problems[0]}'})
+    stats['fault_points'] = stats['runs']
+    return stats, hist, sieve.result(), [{'window_route': route, 'batches': len(batches), 'sequences': len(seqs)}]
+
+
 def replay(args):
     from fjv.enginecheck import write_image, probe_words
     from fjv.ref import machine as R1
@@ -460,8 +603,9 @@ def main():
     if args.tier == 'thorough':
         tasks += [(args.tier, 64, 'loop', p, 5) for p in range(5)] + [(args.tier, 32, 'cat', p, 12) for p in range(12)]
     tasks += [(args.tier, w, 'small', p, 8) for w in widths for p in range(8)]
+    tasks += [('window', args.tier, route, p, 4) for route in ('pump', 'key-source', 'present') for p in range(4)]
     if args.only:
-        tasks = [t for t in tasks if args.only in t[2]]
+        tasks = [t for t in tasks if args.only in t[2] or (args.only == 'window' and t[0] == 'window')]
     total, hist, samples = {}, {}, []
     for stats, h, res, smp in pmap(work, tasks, args.jobs):
         for k, v in stats.items():
